@@ -50,6 +50,7 @@ func pebbleOpts(fs vfs.FS) pebblev2.Option {
 		o.FS = fs
 		o.DisableAutomaticCompactions = true
 		o.MemTableSize = 32 << 20
+		o.CacheSize = 256 << 20
 		o.Logger = quietLogger{}
 		return nil
 	}
